@@ -35,8 +35,14 @@ class Boom(Exception):
     pass
 
 
+def _loop_closed(msg):
+    return RuntimeError('Event loop is closed')  # a text the run loop itself looks for
+
+
 EXC = {'ValueError': ValueError, 'KeyError': KeyError, 'RuntimeError': RuntimeError, 'Boom': Boom,
-       'TimeoutError': TimeoutError, 'OSError': OSError}
+       'TimeoutError': TimeoutError, 'OSError': OSError,
+       # exception types the library uses for its own control flow: raised by a handler they are just handler errors
+       'QueueShutDown': svc.QueueShutDown, 'QueueFull': asyncio.QueueFull, 'LoopClosed': _loop_closed}
 
 
 def _san(e, n=60):
@@ -510,7 +516,12 @@ async def do_stop(w: World, actor, busn, timeout, clear):
 def make_handler(w: World, hi: int, spec: dict):
     busn = spec['bus']
     prog = spec.get('prog', [])
-    retval = spec.get('ret', f'r{hi}')
+    _ret = spec.get('ret', f'r{hi}')
+
+
+    def fresh():
+        # a fresh object per activation (lists / dicts must not be shared between events by the harness itself)
+        return list(_ret) if isinstance(_ret, list) else dict(_ret) if isinstance(_ret, dict) else _ret
 
     def enter(event, register_task):
         w.nact += 1
@@ -528,7 +539,7 @@ def make_handler(w: World, hi: int, spec: dict):
         try:
             r = await run_prog(w, prog, act, event.depth, True, f'{w.sid[en]}/{busn}.h{hi}', event, busn)
             w.rec('exit', act, 'ret')
-            return retval if r is None else r
+            return fresh() if r is None else r
         except asyncio.CancelledError:
             w.rec('exit', act, 'cancelled')
             raise
@@ -574,7 +585,7 @@ def make_handler(w: World, hi: int, spec: dict):
                 else:
                     raise AssertionError(f'op {op} not allowed in sync handler')
             w.rec('exit', act, 'ret')
-            return retval if r is None else r
+            return fresh() if r is None else r
         except BaseException as e:
             w.rec('exit', act, 'raise:' + type(e).__name__)
             raise
@@ -668,7 +679,8 @@ def completion_watch(w: World):
     flagged: set = set()
 
     def snap(ev):
-        return (ev.event_status, tuple((hid, r.status, id(r.result) if r.result is not None else None, id(r.error) if r.error is not None else None)
+        return (ev.event_status, tuple((hid, r.status, id(r.result) if r.result is not None else None, id(r.error) if r.error is not None else None,
+                                        repr(r.result)[:120] if isinstance(r.result, (list, dict, str, int, float, tuple)) else None)
                                        for hid, r in ev.event_results.items()))
 
     def watch():
